@@ -272,6 +272,26 @@ def run(ctx):
         n = r.choice([1, 2, 5, 20, 100, 255, 256, 300])
         chars = [chr(r.choice(ALPHA)) if r.random() < 0.9 else r.choice(FOREIGN) for _ in range(n)]
         strings.append("".join(chars).encode())
+    # truncation aliases: a valid signature in which one, some or all characters are replaced by a code point that
+    # becomes the original character under a lossy cast (`c as u8`: + k * 0x100; 7-bit mask: + 0x80; `as u16`: + 0x10000)
+    def alias(ch, kind):
+        c = ch + (r.choice([1, 2, 3, 0x20, 0xFF]) * 0x100 if kind == 0 else 0x80 if kind == 1 else 0x10000 * r.choice([1, 2, 0x10]))
+        if 0xD800 <= c <= 0xDFFF or c > 0x10FFFF:
+            c = ch + 0x100
+        return chr(c)
+    nalias = 0
+    bases = [b"i", b"ai", b"(i)", b"a{sv}", b"(ii)", b"a(yu)", b"v", b"sa{sv}as"] + [gen_sig(r) for _ in range(ngen // 10)]
+    for s in bases:
+        if not s or len(s) > 60:
+            continue
+        for kind in (0, 1, 2):
+            for mode in ("one", "some", "all"):
+                idx = ([r.randrange(len(s))] if mode == "one" else
+                       [i for i in range(len(s)) if r.random() < 0.5] or [0] if mode == "some" else list(range(len(s))))
+                t = "".join(alias(c, kind) if i in idx else chr(c) for i, c in enumerate(s))
+                strings.append(t.encode("utf-8"))
+                nalias += 1
+    ctx.count("explicit:truncation-alias-strings", nalias)
     uniq = list(dict.fromkeys(strings))
     lines = ["s " + hx(s) for s in uniq]
     chunks = [lines[i::vlib.NPROC] for i in range(vlib.NPROC)]
